@@ -276,6 +276,17 @@ def check_qttmatrix(c):
                 Bref[i, j] = D[tuple(((i >> t) & 1) + 2 * ((j >> t) & 1) for t in range(q))]
         res.check(B.shape == (N, N) and np.abs(B - Bref).max() <= 1e-13 * max(1, nrm), 'qm.full_matrix', case,
                   lambda: 'full_matrix differs from the bit-interleaved dense export by %.3e' % np.abs(B - Bref).max())
+        # the other index convention inside a mode (order='C': mode index = 2 * row bit + column bit), and the default again afterwards:
+        # an option of one call must not colour the next call
+        Bc = teneva.full_matrix(Y, order='C')
+        Bcref = np.zeros((N, N))
+        for i in range(N):
+            for j in range(N):
+                Bcref[i, j] = D[tuple(2 * ((i >> t) & 1) + ((j >> t) & 1) for t in range(q))]
+        res.check(Bc.shape == (N, N) and np.abs(Bc - Bcref).max() <= 1e-13 * max(1, nrm), 'qm.full_matrix.order_c', case,
+                  lambda: "full_matrix(order='C') differs from its dense reference by %.3e" % np.abs(Bc - Bcref).max())
+        B2 = teneva.full_matrix(Y)
+        res.check(np.array_equal(B2, B), 'qm.full_matrix.again', case, "full_matrix with the default order changes after a call with order='C'")
         if r >= 1e9:
             err = float(np.linalg.norm(D - T))
             res.check(err <= e * np.sqrt(max(q - 1, 1)) * (1 + 1e-9) + 1e-13 * nrm, 'qm.roundtrip', case,
